@@ -245,7 +245,7 @@ def c07(prop, tier, seed):
                     res.inconclusive.append({"why": "valgrind run failed to execute", "rc": p.returncode, "stderr": p.stderr[-400:]})
     finally:
         cleanup(wd)
-    rule = ("one case = (small generated file of 2..12 pages, page): EVERY single-bit flip of the page (8192, payload and checksum bytes) plus sampled 2-/3-bit flips (same page and across pages), bursts <=32 bits at every bit phase and random overwrites; on each altered image: validate_crc must fail (guaranteed classes), E57Reader::new either fails or reports exactly the intact descriptors/header/xml, then a shuffled operation sequence with repetitions (raw, simple, blobs, descriptors) where each result is Err or equal to the intact file's; stored checksums are compared with an independent bitwise CRC-32C; the same seeded workload runs on the built-in and on the crc32c back-end and file/verdict digests must agree; "
+    rule = ("one case = (small generated file of 2..12 pages, page): EVERY single-bit flip of the page (8192, payload and checksum bytes) plus sampled 2-/3-bit flips (same page and across pages), bursts <=32 bits at every bit phase and random overwrites; on each altered image: validate_crc must fail (guaranteed classes), E57Reader::new either fails or reports exactly the intact descriptors/header/xml, then a shuffled operation sequence with repetitions (raw, simple, blobs, descriptors) where each result is Err or equal to the intact file's; stored checksums are compared with an independent bitwise CRC-32C; every iterator is called again up to three times after an Err and every Ok item (before or after an error) must be the intact file's item at that position; every file is also re-paged to 1023/1022/1021/517/514/259/2048-byte pages with the independent CRC and validate_crc / raw_xml must accept it and detect a flipped bit in a page tail (payload lengths that are not a multiple of 4); the same seeded workload runs on the built-in and on the crc32c back-end and file/verdict digests must agree; "
             "non-trivial = altered image; distinct = pages flipped exhaustively (each contributes 8192 distinct images)")
     distinct = res.stats.get("pages_flipped_exhaustively", 0)
     extra = dict(notes)
@@ -420,10 +420,10 @@ def c02(prop, tier, seed):
         res.stats["blobs_decoded_and_compared"] = blobs
     finally:
         cleanup(wd)
-    rule = ("files finalized successfully by generated writer programs (a mixture: section-start residue sweep over all 255 four-aligned residues mod 1020, metadata-heavy with wild strings, blob-heavy, width-focused) are exported together with their intent and decoded by the independent Python implementation e57ref (own CRC-32C, pager, bit codec, expat in namespace mode): rules R1 whole pages, R2 every page CRC, R3 header fields, R4 XML well-formed/namespaces/types, R5 offsets land on sections of the right kind outside checksums and 4-aligned, R6 section/packet tiling and padding, R7 decoded points = intent (+ exact stream byte counts), R8 blob headers (reference convention) and bytes, R9 no overlaps, R10 metadata = intent; "
+    rule = ("files finalized successfully by generated writer programs (a mixture: section-start residue sweep over all 255 four-aligned residues mod 1020, metadata-heavy with wild strings and the END of the XML aimed at residues {0, 1, 4, 1016, 1019} mod 1020, blob-heavy, width-focused with rejected points in between) are exported together with their intent and decoded by the independent Python implementation e57ref (own CRC-32C, pager, bit codec, expat in namespace mode): rules R1 whole pages, R2 every page CRC, R3 header fields, R4 XML well-formed/namespaces/types, R5 offsets land on sections of the right kind outside checksums and 4-aligned, R6 section/packet tiling and padding, R7 decoded points = intent (+ exact stream byte counts), R8 blob headers (reference convention) and bytes, R9 no overlaps, R10 metadata = intent; "
             "non-trivial = exported file decoded; distinct = distinct files decoded (each generated from a distinct case seed), measured as distinct program shapes")
     extra = {"files_decoded": res.stats.get("files_decoded", 0), "bytes_decoded": res.stats.get("bytes_decoded", 0), "points_decoded_and_compared": res.stats.get("points_decoded_and_compared", 0), "blobs_decoded_and_compared": res.stats.get("blobs_decoded_and_compared", 0),
-             "section_start_residues_seen": len(res.nums.get("section_start_mod1020", ())), "xml_start_residues_seen": len(res.nums.get("xml_start_mod1020", ()))}
+             "section_start_residues_seen": len(res.nums.get("section_start_mod1020", ())), "xml_start_residues_seen": len(res.nums.get("xml_start_mod1020", ())), "xml_end_residues_seen": len(res.nums.get("xml_end_mod1020", ())), "xml_end_exactly_on_payload_boundary": 0 in res.nums.get("xml_end_mod1020", ())}
     assumptions = ["the decoder is calibrated on the bundled reference files (all valid ones decode without a lint finding; checked by ./check --setup)", "things the statement does not list (example values inside prototype elements, spelling of non-finite floats) are not judged", "blob section length convention = 16 + length rounded up to 4, as written by libE57Format (read off testdata/tiny_pc_and_images.e57)"]
     return finish(prop, tier, seed, level(prop), res, rule, min(len(res.nums.get("program_shape", ())), res.stats.get("files_decoded", 0)), res.stats.get("files_decoded", 0), assumptions, t0, extra)
 
